@@ -98,7 +98,7 @@ CLAIMS = {
         text="Decides coverage/symmetry of the values_equal variant-pair table (diagonal explicit, off-diagonal false, binaries by content for all "
              "representation pairs, tuples by canonical shape), the single minting site and advancing counter of refs, worker-id plumbing, "
              "non-re-emission of compile-time refs, and recomputation of the canonical-shape table. Does not decide that every construction path "
-             "yields ids the canonical table reconciles. Also: Value::Process is constructed only at reviewed sites and a self handle takes its function index from the entry frame.",
+             "yields ids the canonical table reconciles. Also: Value::Process is constructed only at reviewed sites and a self handle takes its function index from the entry frame; the equality code never compares the raw results of narrowing conversions (lossy-comparison lint).",
         design="§3 C13", technique="static analysis: HIR pattern-matrix evaluation, MIR constructor census and value-source checks"),
     "C14": dict(
         text="Decides: the ownership test guards the only EffectBackend::execute call path-wise; three reviewed writers of the ownership map; "
@@ -111,7 +111,7 @@ CLAIMS = {
     "C15": dict(
         text="Decides structural clauses: a deny-by-default census of every panic-capable construct on the worker / environment / executor step "
              "paths (interval- or guard-discharged, else reviewed per-(function, kind) ceilings), the closed writer set of Process.result and frame "
-             "clears, a census of every fatal EnvironmentError constructed on those paths with the reason a program cannot trigger it, the await "
+             "clears, a census of every fatal EnvironmentError constructed on those paths (and of every core Error constructed in the executor entry points whose error ends the worker loop) with the reason a program cannot trigger it, the await "
              "registration / reporting / never-dropped-answer protocol (every process source asked about), the propagation of the awaited process's own "
              "error, cleanup touching only the finished process's own resources, and effect/ownership "
              "failures delivered to the requesting process as values. Containment under real interleavings is NOT decided.",
@@ -119,7 +119,7 @@ CLAIMS = {
     "C16": dict(
         text="Decides the constant-space MECHANISM: the TailCall handler (and everything it reaches) pushes no frame, truncates locals before "
              "pushing new ones on every non-error path, overwrites the top frame in place with the same locals_base; frames are pushed at three "
-             "reviewed sites; block stripping never splices a tail call out of final position. Peak sizes over N iterations are not measured. Also: the height at which each emitted TailCall executes is fixed per combination of the generator's flag parameters (emission-effect analysis), and reclamation runs unconditionally at every step boundary.",
+             "reviewed sites; block stripping never splices a tail call out of final position. Peak sizes over N iterations are not measured. Also: the height at which each emitted TailCall executes is fixed per combination of the generator's flag parameters (emission-effect analysis), and reclamation runs unconditionally at every step boundary; every heap blob accompanies a message once (distinct indices), so message loops leave no dead slots.",
         design="§3 C16", technique="static analysis: MIR path exploration, value-source checks and who-may-call census; emission-effect abstract interpretation of the code generator (tail-call heights)"),
     "C18": dict(
         text="Decides the no-panic clause structurally: a deny-by-default census of every panic-capable construct (unwrap/expect/panic, slice and "
